@@ -105,6 +105,25 @@ def _consts(e, acc=None):
     return acc
 
 
+def expand_defs(term, pc, depth=12):
+    """Substitute the interpreter's abbreviations (`name!k == term` equalities in the path condition) back into a term, so that its
+    shape (which libm applications it contains) can be inspected. Queries keep using the abbreviated form."""
+    defs = []
+    for c in pc:
+        if isinstance(c, bool) or not z3.is_eq(c):
+            continue
+        a = c.arg(0)
+        if a.num_args() == 0 and a.decl().kind() == z3.Z3_OP_UNINTERPRETED and "!" in a.decl().name() and not a.decl().name().startswith(("q!", "rho!")):
+            defs.append((a, c.arg(1)))
+    t = term
+    for _ in range(depth):
+        t2 = z3.substitute(t, *defs) if defs else t
+        if t2.eq(t):
+            break
+        t = t2
+    return t
+
+
 def relevant(pc, seeds, rounds):
     """Constraints of pc within `rounds` steps of symbol sharing from the seed terms (dropping constraints is sound for unsat)."""
     syms = set()
@@ -151,12 +170,12 @@ def prove_chain(S, res, pc, steps, what, mf, extra=(), timeout_ms=15000):
         if done:
             proven.append(claim)
             continue
-        if r == "sat" and last:
+        if r == "sat":
             if os.environ.get("VERIF_DEBUG"):
                 for c in pc[-6:]:
                     log("      pc: " + str(c).replace("\n", " ")[:300])
                 log("      model: " + str(sorted([(str(d), str(m[d])[:40]) for d in m.decls() if str(d).startswith(("fl!", "uf!acos", "q!"))])))
-            res["cands"].append({"what": what + ": " + desc, "inputs": mf(m)})
+            res["cands"].append({"what": what + ": " + desc + ("" if last else " [intermediate proof step refuted by a model]"), "inputs": mf(m)})
         else:
             res["inconclusive"].append("proof step undecided (%s): %s: %s" % (r, what, desc))
         return False
@@ -226,7 +245,7 @@ def fajr_isha(prog, latmax):
                 neg = [("%s altitude differs from -angle by more than 0.03 deg (sine scale)" % nm, z3.Or(E > TOL_SINE_003, E < -TOL_SINE_003)),
                        ("%s not on its side of Dhuhr / more than 12 h away" % nm, z3.Or(Hdeg < -rv("0.000001"), Hdeg > rv("180.000001"))),
                        ("%s reported although the Sun never reaches -angle that day" % nm, z3.Or(sinh < s_ - c_, sinh > s_ + c_))]
-                acs = _smt.collect_apps([t]).get("acos", [])
+                acs = _smt.collect_apps([expand_defs(t, o.st.pc)]).get("acos", [])
                 hints = {"lip": [("cos", H, a) for a in acs]}
                 prove(S, res, o.st.pc, neg, nm + " Ok path", mf, extra, hints)
             else:
@@ -261,8 +280,8 @@ def fajr_isha_monotone(prog, latmax):
                 r1, r2 = o1.value.items[idx], o2.value.items[idx]
                 if r1.disc == 0 and r2.disc == 0:
                     t1, t2 = to_z3(r1.pay["Ok"][0]), to_z3(r2.pay["Ok"][0])
-                    ac1 = _smt.collect_apps([t1]).get("acos", [])
-                    ac2 = _smt.collect_apps([t2]).get("acos", [])
+                    ac1 = _smt.collect_apps([expand_defs(t1, o2.st.pc)]).get("acos", [])
+                    ac2 = _smt.collect_apps([expand_defs(t2, o2.st.pc)]).get("acos", [])
                     hints = {"mono": [("sin", -a1 * D2R, -a2 * D2R)] + [("acos", x.arg(0), y.arg(0)) for x in ac1 for y in ac2]}
                     neg = [("%s moves the wrong way when its angle grows" % nm, (t2 > t1) if idx == 0 else (t2 < t1))]
                     prove(S, res, o2.st.pc, neg, nm + " monotone", mf, extra, hints)
@@ -324,7 +343,7 @@ def asr(prog, latmax):
                 # independent statement of the rule: alpha = atan(1/q); compare sines
                 inv = z3.Real("inv_q_%d" % k)
                 alpha = atan(inv)
-                acs = _smt.collect_apps([t]).get("acos", [])
+                acs = _smt.collect_apps([expand_defs(t, o.st.pc)]).get("acos", [])
                 hints = {"lip": [("cos", H, a) for a in acs]}
                 neg = [("Asr altitude violates the shadow rule (k=%d) by more than 0.03 deg" % k,
                         z3.Or(sina - sin(alpha) > TOL_SINE_003_45, sina - sin(alpha) < -TOL_SINE_003_45)),
@@ -340,8 +359,8 @@ def asr(prog, latmax):
             if o1.value.disc == 0 and o2.value.disc == 0:
                 t1, t2 = to_z3(o1.value.pay["Ok"][0]), to_z3(o2.value.pay["Ok"][0])
                 pc = list(o1.st.pc) + [c for c in o2.st.pc if all(c is not d for d in o1.st.pc)]
-                ac1 = _smt.collect_apps([t1]).get("acos", [])
-                ac2 = _smt.collect_apps([t2]).get("acos", [])
+                ac1 = _smt.collect_apps([expand_defs(t1, o1.st.pc)]).get("acos", [])
+                ac2 = _smt.collect_apps([expand_defs(t2, o2.st.pc)]).get("acos", [])
                 at1 = _smt.collect_apps(list(o1.st.pc[n0:])).get("atan", [])
                 at2 = _smt.collect_apps(list(o2.st.pc[n0:])).get("atan", [])
                 if len(ac1) == 1 and len(ac2) == 1 and len(at1) == 1 and len(at2) == 1:
@@ -431,7 +450,7 @@ def order_twilight_vs_riseset(prog, latmax):
             if o2.value.disc != 0:
                 continue
             adj = to_z3(o2.value.pay["Ok"][0])
-            ac0 = [a for a in _smt.collect_apps([adj]).get("acos", [])]
+            ac0 = [a for a in _smt.collect_apps([expand_defs(adj, o2.st.pc)]).get("acos", [])]
             if len(ac0) != 1:
                 res["inconclusive"].append("unexpected shape of the sunrise term")
                 continue
@@ -442,7 +461,7 @@ def order_twilight_vs_riseset(prog, latmax):
                 if rr.disc != 0:
                     continue
                 t = to_z3(rr.pay["Ok"][0])
-                acs = _smt.collect_apps([t]).get("acos", [])
+                acs = _smt.collect_apps([expand_defs(t, o2.st.pc)]).get("acos", [])
                 if len(acs) != 1:
                     res["inconclusive"].append("unexpected shape of the %s term" % nm)
                     continue
@@ -499,9 +518,17 @@ def qibla(prog, _):
         deg = to_z3(q.fields[names.index("degrees")])
         if "elev" in _consts(deg):
             res["cands"].append({"what": "degrees depends on elevation", "inputs": {"lat": 30.0, "lon": 10.0, "elev": 1000.0}})
-        a2 = _smt.collect_apps([deg]).get("atan2", [])
+        a2 = _smt.collect_apps([expand_defs(deg, o.st.pc)]).get("atan2", [])
         if len(a2) != 1:
-            res["inconclusive"].append("unexpected shape of the degrees term (atan2 applications: %d)" % len(a2))
+            # a path that does not go through a single atan2 (special-casing): decide the claim directly
+            E0 = cos(phiK) * sin(u)
+            N0 = cos(phi) * sin(phiK) - sin(phi) * cos(phiK) * cos(u)
+            th = atan2(E0, N0)
+            neg = [("degrees differs from -bearing of the east/north form by more than 1e-6 deg (mod 360)",
+                    z3.And([z3.Or(deg + th * R2D - 360 * kk > rv("0.000001"), deg + th * R2D - 360 * kk < -rv("0.000001")) for kk in (-1, 0, 1)])),
+                   ("degrees outside (-180, 180]", z3.Or(deg <= -rv("180.000001"), deg > rv("180.000001")))]
+            prove(S, res, list(o.st.pc) + [z3.Or(E0 != 0, N0 != 0)], neg, "Qibla special-case path", mf, extra,
+                  {"pyth": [th, u, x], "neg": [(u, x)], "special": True})
             continue
         th1 = a2[0]
         A_, B_ = th1.arg(0), th1.arg(1)
@@ -538,4 +565,93 @@ def qibla(prog, _):
                 res["cands"].append({"what": "rotation() label disagrees with the sign of degrees", "inputs": mf(m)})
             elif r == "unknown":
                 res["inconclusive"].append("rotation label query undecided")
+    return finish(res, I, S, t0)
+
+
+# ------------------------------------------------------------------------------------------------ rise/set correction (C02c)
+
+def shur_magh_correction(prog, latmax):
+    """get_shur_magh (C02): the one-step correction solves the linearised altitude equation of Meeus (15.x):
+         delta_m * 360 cos(dec_m) cos(lat) sin(H') = altitude(m) - h0      within 0.05 deg,
+    where altitude(m) = asin(sin lat sin dec_m + cos lat cos dec_m cos H') with the declination interpolated to the day fraction m and
+    H' = H - dra; in particular the weather-dependent refraction term is below 0.03 deg (times move by seconds only) for every
+    pressure/temperature in range. Preconditions: the first approximation is within 1 deg of h0 and not grazing
+    (|cos dec cos lat sin H'| >= 0.05)."""
+    t0 = time.time()
+    res = new_res("get_shur_magh: correction = (altitude - h0)/(360 cos dec cos lat sin H) within 0.05 deg, refraction term <= 0.03 deg (|lat| <= %s)" % latmax,
+                  ["get_shur_magh", "get_refraction"])
+    S, I, st, V, extra = _setup_kernel(prog, latmax)
+    lat, A = V["lat"], V["A"]
+    D_ = float(D2R_F)
+    m, Hd = z3.Real("m_time"), z3.Real("hour_angle")
+    P, T = z3.Real("pressure"), z3.Real("temperature")
+    st.add([m >= 0, m <= 1, Hd >= -180, Hd <= 180, P >= 100, P <= 1050, T >= -90, T <= 57])
+    d1 = A[2]["dec"] - A[0]["dec"]
+    d2 = A[2]["dec"] - 2 * A[1]["dec"] + A[0]["dec"]
+    tad = mk_tad(I, lat, V["lon"], V["elev"], [mk_astro(I, x["dra"], x["dec"], x["ra"], x["rsum"], x["sid"]) for x in A])
+    tc = st.alloc(tad)
+    w = Struct("Weather", [Struct("Pressure", (P,)), Struct("Temperature", (T,))])
+    phi = lat * D2R
+    dm_deg = A[1]["dec"] + m * (d1 + d2 * m) / 2
+    dl = dm_deg * D2R
+    Hr = Hd * D2R - A[1]["dra"]
+    Sx = sin(phi) * sin(dl) + cos(phi) * cos(dl) * cos(Hr)
+    alt0 = asin(Sx) * R2D
+    Dn = 360 * cos(dl) * cos(phi) * sin(Hr)
+    h0p = rv("-0.833")
+    # Sx is the cosine of the zenith distance (dot product of two unit vectors): |Sx| <= 1 is a theorem, stated as a premise
+    st.add([Sx >= -1, Sx <= 1])
+    st.add([alt0 >= h0p - 1, alt0 <= h0p + 1, z3.Or(Dn >= 18, Dn <= -18), dm_deg >= rv("-23.9"), dm_deg <= rv("23.9")])
+    mf0 = _mf(V)
+
+    def mf(mo):
+        d = mf0(mo)
+        d.update({"m": mval(mo, m), "hour_angle": mval(mo, Hd), "pressure": mval(mo, P), "temperature": mval(mo, T)})
+        return d
+    ex2 = list(extra) + _smt.interval_lemmas([(dl, -23.9 * D_, 23.9 * D_)])
+    I.lemma_fn = lambda a: _smt.lemmas_min(a) + ex2
+    n0 = len(st.pc)
+    outs = I.run_body(prog.find_body("get_shur_magh"), [Ref(tc, ()), w, Tup([d1, d2]), m, Hd], st=st)
+    rets = []
+    for o in outs:
+        res["paths"] += 1
+        if o.kind != "return":
+            res["inconclusive"].append("%s: %s" % (o.kind, o.info))
+        else:
+            rets.append(o)
+    res["witness"] = 1 if rets else 0
+    for o in rets:
+        hour = to_z3(o.value)
+        dm = hour / 24 - m
+        tans = _smt.collect_apps(list(o.st.pc[n0:])).get("tan", [])
+        divs = getattr(o.st, "divs", [])
+        if len(tans) != 1 or len(divs) < 3:
+            res["inconclusive"].append("unexpected shape of the refraction computation (%d tan applications, %d divisions)" % (len(tans), len(divs)))
+            continue
+        targ = tans[0].arg(0)
+        def div_with(numer):
+            for q, n_, d_ in divs:
+                ns = z3.simplify(n_)
+                if z3.is_rational_value(ns) and abs(float(ns.as_fraction()) - numer) < 1e-9:
+                    return q
+            return None
+        q_r, q_t = div_with(1.02), div_with(283.0)
+        if q_r is None or q_t is None:
+            res["inconclusive"].append("refraction constants 1.02 / 283 not found in the computation")
+            continue
+        ex3 = ex2 + _smt.interval_lemmas([(targ, 1.15 * D_, 2.4 * D_)], conditional=True, funcs=("tan",)) + \
+            _smt.interval_lemmas([(Sx, math.sin(-1.9 * D_), math.sin(0.2 * D_))], conditional=True, funcs=("asin",)) + \
+            _smt.interval_lemmas([(asin(Sx), -1.8400001 * D_, 0.1700001 * D_)], conditional=True, funcs=("sin",))
+        steps = [
+            ("sine of the altitude is in the band of the precondition", z3.And(Sx >= rv(Fraction(math.sin(-1.85 * D_))), Sx <= rv(Fraction(math.sin(0.18 * D_)))),
+             {"mono": [], "lip": []}),
+            ("refraction argument h + 10.3/(h + 5.11) lies in [1.15, 2.4] deg", z3.And(targ >= rv(Fraction(1.15 * D_)), targ <= rv(Fraction(2.4 * D_))), {}),
+            ("1.02 / (tan(..) * 180/pi + 0.0019279) lies in [0.4, 0.9]", z3.And(q_r >= rv("0.4"), q_r <= rv("0.9")), {}),
+            ("283 / (273 + T) lies in [0.85, 1.55]", z3.And(q_t >= rv("0.85"), q_t <= rv("1.55")), {}),
+            ("correction solves the linearised altitude equation within 0.05 deg",
+             z3.And(dm * Dn - (alt0 - h0p) <= rv("0.05"), dm * Dn - (alt0 - h0p) >= rv("-0.05")), {}),
+            ("refraction term (weather dependent) is positive and below 0.03 deg",
+             z3.And(dm * Dn - (alt0 - rv(Fraction(-0.83337))) >= 0, dm * Dn - (alt0 - rv(Fraction(-0.83337))) <= rv("0.03")), {}),
+        ]
+        prove_chain(S, res, o.st.pc, steps, "rise/set correction", mf, ex3, timeout_ms=30000)
     return finish(res, I, S, t0)
